@@ -181,7 +181,7 @@ def lattice():
         out.append({"project": proj, "envvar": "create,fix,trim,update", "xdist": 2})
         out.append({"project": proj, "cli": "fix", "xdist": 2})
         out.append({"project": proj, "cli": "disable", "xdist": 2})
-        out.append({"project": proj, "cli": "create,fix,trim,update", "xdist": 0, "argv": ["-n", "0"]})
+        out.append({"project": proj, "cli": "create,fix,trim,update", "xdist": 0})
         # invalid combinations
         out.append({"project": proj, "cli": "disable,fix"})
         out.append({"project": proj, "cli": "fix,bogus"})
@@ -293,9 +293,31 @@ def build(case):
     if cfg.get("shortcut"):
         argv.append("--" + cfg["shortcut"])
     spec = {"flags": cfg.get("cli"), "env": env, "answers": cfg.get("answers"), "argv": argv}
-    if cfg.get("xdist"):
+    if cfg.get("xdist") is not None:
         spec["xdist"] = cfg["xdist"]
     return files, spec
+
+
+def has_module_level_snapshot(src):
+    import ast
+
+    try:
+        tree = ast.parse(src)
+    except (SyntaxError, ValueError):
+        return True
+    for node in tree.body:
+        if isinstance(node, (ast.FunctionDef, ast.AsyncFunctionDef, ast.ClassDef, ast.Import, ast.ImportFrom)):
+            # lambdas / defaults evaluated at import are rare enough to ignore; function bodies run inside tests
+            if isinstance(node, ast.FunctionDef) and any(isinstance(n, ast.Call) and getattr(n.func, "id", "") == "snapshot" for d in node.args.defaults for n in ast.walk(d)):
+                return True
+            continue
+        for n in ast.walk(node):
+            if isinstance(n, ast.Lambda):
+                continue
+            if isinstance(n, ast.Call) and isinstance(n.func, ast.Name) and n.func.id == "snapshot":
+                # inside a lambda body it is not evaluated at import
+                return not any(isinstance(p, ast.Lambda) and n in ast.walk(p) for p in ast.walk(node))
+    return False
 
 
 def judged_tree(tree):
@@ -358,7 +380,12 @@ def execute(case, ctx):
         ctx.count("probe_approve_nothing_config")
         exp = orig
     else:
-        rfiles, rspec = build({"config": {"project": cfg.get("project"), "cli": ",".join(sorted(approved)),
+        # the reference session approves exactly Eff on the command line; in review mode every comparison is made to succeed (the whole
+        # test body runs, more snapshots are reached), so the reference of a review session is a review session answered with exactly Eff
+        review_mode = "review" in (cfg.get("_flags") or [])
+        by_flag = approved & set(cfg.get("_flags") or [])
+        rfiles, rspec = build({"config": {"project": cfg.get("project"), "cli": ",".join(["review"] + sorted(by_flag)) if review_mode else ",".join(sorted(approved)),
+                                          "answers": {c: True for c in approved - by_flag} if review_mode else None,
                                           "default_flags": cfg.get("default_flags"), "default_flags_tui": cfg.get("default_flags_tui"),
                                           "shortcuts": cfg.get("shortcuts")}, "program": case.get("program")})
         rnew, rres = sim.run_session(ctx, "plugin", rfiles, rspec, timeout=90)
@@ -370,6 +397,11 @@ def execute(case, ctx):
         # no test file takes part in the session, so with trim approved every external counts as unused (C13 S4): storage not compared here
         got = {k: v for k, v in got.items() if not k.startswith(".inline-snapshot/")}
         exp = {k: v for k, v in exp.items() if not k.startswith(".inline-snapshot/")}
+        # a snapshot() evaluated at module level runs at import time, outside any (xfail) test, with the session's active state:
+        # whether "tests marked xfail" covers it is not decided by the statement -> such files are not judged here
+        for k in [k for k in got if k.startswith("test_") and has_module_level_snapshot(orig.get(k, b""))]:
+            got.pop(k, None)
+            exp.pop(k, None)
     changed_cls = "changed" if got != orig else "unchanged"
     out["abstract"].append(tag + "|" + changed_cls)
     if got != exp:
